@@ -57,7 +57,11 @@ ASSUMPTIONS = [
     "tempo event at tick 0 is accepted when the score has no tempo mark there",
     "key mode None is read as major",
     "touching notes of equal pitch (one ends where the other starts) do not overlap and are generated; a "
-    "zero-duration (grace) note is generated on an equal pitch only in the same voice, added before its main note",
+    "zero-duration (grace) note is generated on an equal pitch only in the same voice, added before its main note "
+    "(sub-space tick-order-grace also puts a grace note at the position where a note of its pitch ends or starts in "
+    "ANOTHER voice or part: a zero-duration note overlaps nothing; in the file it must stand after the note-off and "
+    "before the note-on of that pitch in its track/channel, which is what the raw pairing reads)",
+    "sub-spaces tick-order*: a key signature / time signature placed at a hand-over stands in every part of the score",
     "configurations whose pad_bar padding is not a whole number of ticks are not generated",
     "the divisions value chosen by the importer is free: imported positions are compared in quarters",
     "import variant 'zerovel' (sub-spaces touch, modes): the written file with every note_off re-encoded as a "
@@ -653,6 +657,21 @@ def cfg_tempoparts(i, model):
             for j, pol in enumerate(M.POLICIES)]
 
 
+def cfg_tickorder(i, model):
+    """all six modes (touching notes never overlap: every mode is inside the quantifier); pickup policy (no
+    pickup here: the three policies must write the same notes), minimum_ppq and the import encoding cycled"""
+    return [(mode, M.POLICIES[(i + mode) % 3], (0, 7)[(i + mode) % 2], 64, "path", "score",
+             ("plain", "zerovel")[(i // 2 + mode) % 2]) for mode in M.MODES]
+
+
+def cfg_tickorder_half(i, model):
+    """quick tier of tick-order-grace: three of the six configurations of cfg_tickorder per score, modes {0,2,4} or
+    {1,3,5} by the parity of the number of one bits of the case index (independent of every single binary
+    dimension of the generator)"""
+    h = bin(i).count("1") % 2
+    return [c for c in cfg_tickorder(i, model) if c[0] % 2 == h]
+
+
 def cfg_spelling(i, model):
     return [(i % 6, M.POLICIES[i % 3], 0, 64, "path", "score"),
             ((i + 3) % 6, "shift", 7, 100, "none", "score")]
@@ -714,6 +733,36 @@ def spaces(tier, seed):
                     "divisions {6,1} alternating; every mode of the 6 in which no equal pitches overlap within a "
                     "track/channel (modes 0 and 5 always), import of the file as written or re-encoded with zero-velocity "
                     "note-ons (alternating)"))
+    if quick:
+        tot = lambda: M.gen_tickorder_touch(carriers="cycle")
+        tog = lambda: M.gen_tickorder_grace(ngrace=(1,), carriers="cycle")
+        to_b = ("the carrier of the tempo marks of a two-part score alternates between its first and its last part "
+                "(marks of one score in one part)", "one grace note; tempo carrier alternating", "modes {0,2,4} or {1,3,5} "
+                "per score (alternating by the bit count of the case index)")
+        to_cfg = cfg_tickorder_half
+    else:
+        tot = lambda: M.gen_tickorder_touch(carriers="all")
+        tog = lambda: M.gen_tickorder_grace(ngrace=(1, 2), carriers="all")
+        to_b = ("every tempo mark of a two-part score in its first or its last part, independently per position",
+                "one or two grace notes; tempo mark in the first and in the last part", "6 modes")
+        to_cfg = cfg_tickorder
+    sp.append(Space("tick-order", lambda: with_configs(tot(), cfg_tickorder), True,
+                    "order of the events of one tick when meta events stand at a hand-over: 3 touching notes of one pitch "
+                    "(quarters 0-1, 1-2, 2-4 of two bars 2/4) assigned in all 27 ways to (part 1 voice 1, part 1 voice 2, "
+                    "part 2 voice 1) - hand-over inside a voice, between voices, between parts, the key of the starting "
+                    "note registered before or after that of the ending note - x at each of the two hand-over positions "
+                    "every combination of {tempo mark, key signature (in every part)} and, at the barline (quarter 2), "
+                    "{time signature change 2/4 -> 3/4 (in every part)}; %s; an anchor note of another pitch per part; "
+                    "divisions {1,6} cycled; 6 modes, policy, minimum_ppq {0,7} and import encoding {as written, "
+                    "zero-velocity note-ons} cycled" % to_b[0]))
+    sp.append(Space("tick-order-grace", lambda: with_configs(tog(), to_cfg), True,
+                    "grace notes at a hand-over with meta events at its tick: at quarter 2 (barline of 2/4) on ONE pitch "
+                    "{end of a note E in home hE, or none} x {grace note(s) in home hG, chained to the main note} x "
+                    "{start of a note S in home hS, or none}; main note = S if hS = hG, else a note of another pitch in "
+                    "hG; a lead note (quarters 0-1, other pitch) in home `lead` registers that (part, voice) first; all "
+                    "(lead, hE, hG, hS) over homes (part 1 voice 1, part 1 voice 2, part 2 voice 1) x every subset of "
+                    "{tempo mark, key signature, time signature change} at quarter 2; %s; divisions {1,6} cycled; %s, "
+                    "policy, minimum_ppq {0,7} and import encoding cycled" % to_b[1:3]))
     tk = M.TEMPO_KINDS if quick else M.TEMPO_KINDS + M.TEMPO_KINDS_MORE
     sp.append(Space("tempo-parts", lambda: with_configs(M.gen_tempoparts(tk, tk[:3] if quick else tk[:4] + tk[7:9]), cfg_tempoparts), True,
                     "tempo marks in scores of several parts with different quarter maps (2/4, two bars, quarter 0 = first "
